@@ -331,6 +331,12 @@ class Interp:
         elif t is ast.AugAssign:
             cur = self.eval(fr, _load(st.target))
             rhs = self.eval(fr, st.value)
+            if isinstance(st.target, ast.Subscript) and not isinstance(cur, View):
+                # A[key] op= v  with an advanced (list / array / boolean) key: A[key] = A[key] op v - the indexed value is
+                # a copy, the store goes through __setitem__ (repeated indices: the last one wins, as in numpy)
+                val = self.binop(st.op, cur, rhs, st.lineno)
+                self.assign(fr, st.target, val, st.lineno)
+                return
             if isinstance(cur, (Box, View)) and not isinstance(cur, ASparse):
                 # ndarray in-place operator: writes into the existing storage
                 val = self.binop(st.op, cur, rhs, st.lineno)
@@ -645,8 +651,18 @@ class Interp:
         raise AnalysisError(f"cannot unpack {v!r}")
 
     def _note_write(self, box, lineno):
-        if isinstance(box, Box) and box.frozen:
-            self.events.append(('input-mutated', box.frozen, self.cur_file, lineno))
+        """a store into `box`; reported when the box - or an array whose memory it shares (TrackedArray(x), x.reshape(..),
+        x.ravel() are views in numpy) - is read-only input storage"""
+        seen = 0
+        while box is not None and seen < 8:
+            if isinstance(box, View):
+                box = box.base
+                continue
+            if isinstance(box, Box) and box.frozen:
+                self.events.append(('input-mutated', box.frozen, self.cur_file, lineno))
+                return
+            box = box.attrs.get('shares') if isinstance(box, Box) else None
+            seen += 1
 
     def store_subscript(self, base, key, v, lineno):
         if isinstance(base, Box):
